@@ -41,7 +41,24 @@ Unused(n, where) ==
   IN CASE where = "top" -> Program(<<Pr(<<Num(0)>>)>> \o decls, <<>>, <<>>)
        [] where = "block" -> Program(<<SIf(<<EBool(TRUE)>>, << decls \o <<Pr(<<Num(0)>>)>> >>, <<>>)>>, <<>>, <<>>)
        [] OTHER -> Program(<<SCall(ECallU("f", Sig(<<>>, <<>>, T_none), <<>>))>>, <<FuncDef("f", <<>>, <<>>, T_none, decls \o <<Pr(<<Num(0)>>)>>)>>, <<>>)
-UnusedProgs == {Unused(n, w) : n \in 2..5, w \in {"top", "block", "func"}}
+\* unused parameters: several diagnostics on ONE line
+UnusedParams(n, how) ==
+  LET ps == [i \in 1..n |-> Param(<<"p1", "p2", "p3", "p4">>[i], T_num)]
+  IN IF how = "func" THEN Program(<<SCall(ECallU("f", Sig([i \in 1..n |-> T_num], <<>>, T_none), [i \in 1..n |-> Num(i)]))>>,
+                                  <<FuncDef("f", ps, <<>>, T_none, <<Pr(<<Num(0)>>)>>)>>, <<>>)
+     ELSE Program(<<Pr(<<Num(0)>>)>>, <<>>, <<Handler("down", <<Param("x", T_num), Param("y", T_num)>>, <<Pr(<<Num(1)>>)>>)>>)
+UnusedProgs == {Unused(n, w) : n \in 2..5, w \in {"top", "block", "func"}} \cup {UnusedParams(n, "func") : n \in 2..4} \cup {UnusedParams(2, "on")}
+
+\* copies of maps made by array repetition keep their key order
+RepMapProgs ==
+  LET m == EVar("m", TMap(T_num))
+      arr == EVar("arr", TArr(TMap(T_num)))
+  IN { Program(<<SInfer("m", EMap(<<K(100), K(98), K(97), K(99), K(101)>>, <<Num(4), Num(2), Num(1), Num(3), Num(5)>>)),
+                 SInfer("arr", EBin("*", EArr(<<m>>), Num(3))), Pr(<<arr>>),
+                 SFor("k", "map", <<EIdx(arr, Num(1))>>, <<Pr(<<EVar("k", T_str)>>)>>),
+                 Pr(<<ECallB("repr", <<EIdx(arr, Num(2))>>), EBin("==", EIdx(arr, Num(0)), m)>>)>>, <<>>, <<>>),
+       Program(<<SInfer("arr", EBin("*", EArr(<<EArr(<<EMap(<<K(122), K(121), K(120)>>, <<Num(1), Num(2), Num(3)>>)>>)>>), Num(2))),
+                 Pr(<<arr>>), SCall(ECallB("font", <<EIdx(EIdx(EVar("arr", TArr(TArr(TMap(T_any)))), Num(1)), Num(0))>>))>>, <<>>, <<>>) }
 
 \* font with several bad properties; several handlers; several other errors in one program
 S(cp) == EStr(cp)
@@ -55,8 +72,8 @@ ManyErrors ==
     [Seed(NoIns) EXCEPT !.hs = <<Handler("key", <<>>, <<Pr(<<Num(1)>>)>>), Handler("down", <<>>, <<Pr(<<Num(2)>>)>>),
                                  Handler("up", <<>>, <<Pr(<<Num(3)>>)>>), Handler("animate", <<>>, <<Pr(<<Num(4)>>)>>)>>] }
 
-Progs == MapLits \cup EffProgs \cup UnusedProgs \cup FontProgs \cup ManyErrors \cup {Seed(NoIns), Seed2}
-ClassOf(p) == CASE p \in MapLits -> "maplit-types" [] p \in EffProgs -> "maplit-effects" [] p \in UnusedProgs -> "unused"
+Progs == MapLits \cup EffProgs \cup RepMapProgs \cup UnusedProgs \cup FontProgs \cup ManyErrors \cup {Seed(NoIns), Seed2}
+ClassOf(p) == CASE p \in MapLits -> "maplit-types" [] p \in RepMapProgs -> "map-copy" [] p \in EffProgs -> "maplit-effects" [] p \in UnusedProgs -> "unused"
                 [] p \in FontProgs -> "fontprops" [] OTHER -> "other"
 
 Init == pr \in Progs
